@@ -41,6 +41,7 @@ CONSTANTS Ids,                 \* possible unit ids (the id generator may pick a
           Ops,                 \* subset of {"submit","cancel","release","status"} the clients use
           FindUnitHoldsRLock,  \* TRUE: findUnit keeps the read lock while rescanning (the code before the fix)
           KF_EmptyStatus,      \* TRUE: Durable is checked modulo the known finding "empty status after crash"
+          KF_LiveRunnerFailed, \* TRUE: Durable is checked modulo the finding "unit with a live runner marked Failed at restart"
           KF_CancelOverS       \* TRUE: SucceededIsFinal is checked modulo the known finding "Cancel overwrites Succeeded"
 
 None == "none"
@@ -96,14 +97,15 @@ VARIABLES
   released, \* [Ids -> BOOLEAN]         a release was answered "released"
   gen,      \* [Ids -> Nat]             allocations of this id that are currently valid (UniqueIDs)
   emptyRec, \* [Ids -> BOOLEAN]         recovery found an empty status file (known finding)
+  liveFail, \* [Ids -> BOOLEAN]         Restart marked the unit Failed ("Pending at restart") while its runner was alive
   crashes,  \* Nat
   bad       \* set of strings: violated step properties (C13), filled at the steps themselves
 
 vars == <<dir, sfile, stdin, stdout, flock, up, active, mem, mon, alock, todo, loc, uid, ufs, rl, ours, rsig, child, ticks,
-          opsLeft, acked, told, pre, relreq, cnreq, released, gen, emptyRec, crashes, bad>>
+          opsLeft, acked, told, pre, relreq, cnreq, released, gen, emptyRec, liveFail, crashes, bad>>
 
 disk == <<dir, sfile, stdin, stdout>>
-book == <<opsLeft, acked, told, pre, relreq, cnreq, released, gen, emptyRec, crashes>>
+book == <<opsLeft, acked, told, pre, relreq, cnreq, released, gen, emptyRec, liveFail, crashes>>
 
 Fresh(ty) == Rec("P", 0, ty, FALSE)
 
@@ -120,7 +122,7 @@ Init ==
   /\ opsLeft = [c \in Sess |-> MaxOps]
   /\ acked = [i \in Ids |-> FALSE] /\ told = [i \in Ids |-> NoTold] /\ pre = [i \in Ids |-> NoTold]
   /\ relreq = [i \in Ids |-> FALSE] /\ released = [i \in Ids |-> FALSE] /\ cnreq = [i \in Ids |-> FALSE]
-  /\ gen = [i \in Ids |-> 0] /\ emptyRec = [i \in Ids |-> FALSE]
+  /\ gen = [i \in Ids |-> 0] /\ emptyRec = [i \in Ids |-> FALSE] /\ liveFail = [i \in Ids |-> FALSE]
   /\ crashes = 0 /\ bad = {}
 
 \* ---------------------------------------------------------------- helpers
@@ -189,7 +191,7 @@ UFS_Read(a) ==
   \* whatever its own object holds: for the runner and for the recovery scan that is a record WITHOUT work type
   /\ emptyRec' = [emptyRec EXCEPT ![uid[a]] = @ \/ sfile[uid[a]] = Empty]
   /\ UNCHANGED <<disk, flock, up, active, mon, alock, todo, loc, uid, ours, rsig, child, ticks,
-                 opsLeft, acked, told, pre, relreq, cnreq, released, gen, crashes, bad>>
+                 opsLeft, acked, told, pre, relreq, cnreq, released, gen, liveFail, crashes, bad>>
 
 UFS_Apply(a) ==
   /\ Alive(a) /\ ufs[a] = "read"
@@ -241,7 +243,7 @@ AllocMkdir(c, i) ==
   /\ acked' = [acked EXCEPT ![i] = FALSE] /\ told' = [told EXCEPT ![i] = NoTold] /\ pre' = [pre EXCEPT ![i] = NoTold]
   /\ relreq' = [relreq EXCEPT ![i] = FALSE] /\ released' = [released EXCEPT ![i] = FALSE]
   /\ cnreq' = [cnreq EXCEPT ![i] = FALSE]
-  /\ emptyRec' = [emptyRec EXCEPT ![i] = FALSE]
+  /\ emptyRec' = [emptyRec EXCEPT ![i] = FALSE] /\ liveFail' = [liveFail EXCEPT ![i] = FALSE]
   /\ UNCHANGED <<sfile, stdin, stdout, flock, up, active, mon, todo, ufs, rl, ours, rsig, child, ticks, crashes, bad>>
 
 \* Save: lock + os.OpenFile(O_CREATE|O_TRUNC)
@@ -279,7 +281,7 @@ Ack(c) ==
   /\ acked' = [acked EXCEPT ![uid[c]] = TRUE]
   /\ Goto(c, "sb_copy")
   /\ UNCHANGED <<disk, flock, up, active, mem, mon, alock, todo, uid, ufs, rl, ours, rsig, child, ticks,
-                 opsLeft, told, pre, relreq, cnreq, released, gen, emptyRec, crashes, bad>>
+                 opsLeft, told, pre, relreq, cnreq, released, gen, emptyRec, liveFail, crashes, bad>>
 
 StdinCopy(c) ==
   /\ up /\ loc[c] = "sb_copy"
@@ -386,7 +388,7 @@ StatusQuery(c, i) ==
                  ELSE bad \cup (IF Stage(new.st) < Stage(old.st) THEN {"ReportedStageMonotone"} ELSE {})
                           \cup (IF old.st = "S" /\ new # old /\ "KF_CancelOverS" \notin bad THEN {"ReportedSucceededIsFinal"} ELSE {})
   /\ UNCHANGED <<disk, flock, up, active, mem, mon, alock, todo, loc, uid, ufs, rl, ours, rsig, child, ticks,
-                 acked, pre, relreq, cnreq, released, gen, emptyRec, crashes>>
+                 acked, pre, relreq, cnreq, released, gen, emptyRec, liveFail, crashes>>
 
 \* findUnit for an id that is not in memory but has a directory: rescan.  With FindUnitHoldsRLock the goroutine asks
 \* for the write lock while holding the read lock: it never returns, and nobody can take the lock exclusively again.
@@ -398,7 +400,7 @@ StatusUnknown(c, i) ==
   /\ IF FindUnitHoldsRLock THEN alock' = c /\ Goto(c, "st_blocked")
                            ELSE UNCHANGED alock /\ Goto(c, "sc_peek")
   /\ UNCHANGED <<disk, flock, up, active, mem, mon, todo, ufs, rl, ours, rsig, child, ticks,
-                 acked, told, pre, relreq, cnreq, released, gen, emptyRec, crashes, bad>>
+                 acked, told, pre, relreq, cnreq, released, gen, emptyRec, liveFail, crashes, bad>>
 
 \* Cancel (command.go): read the pid from memory, SIGINT the runner, Wait, mark Canceled
 CancelBegin(c, i, rel) ==
@@ -411,7 +413,7 @@ CancelBegin(c, i, rel) ==
   /\ mon' = [mon EXCEPT ![i] = FALSE]                       \* cw.CancelContext() stops the monitor
   /\ Goto(c, IF ~mem[i].pid THEN (IF rel THEN "rl_rm" ELSE "done")
              ELSE IF rel THEN "rl_signal" ELSE "cn_signal")
-  /\ UNCHANGED <<disk, flock, up, active, mem, alock, todo, ufs, rl, ours, rsig, child, ticks, acked, told, pre, released, gen, emptyRec, crashes, bad>>
+  /\ UNCHANGED <<disk, flock, up, active, mem, alock, todo, ufs, rl, ours, rsig, child, ticks, acked, told, pre, released, gen, emptyRec, liveFail, crashes, bad>>
 
 CancelSignal(c) ==
   /\ up /\ loc[c] \in {"cn_signal", "rl_signal"}
@@ -445,7 +447,7 @@ ReleaseUnreg(c) ==
        /\ released' = [released EXCEPT ![i] = TRUE]
        /\ gen' = [gen EXCEPT ![i] = 0]
   /\ Goto(c, "done")
-  /\ UNCHANGED <<disk, flock, up, mem, mon, alock, todo, uid, ufs, rl, ours, rsig, child, ticks, opsLeft, acked, told, pre, relreq, cnreq, emptyRec, crashes, bad>>
+  /\ UNCHANGED <<disk, flock, up, mem, mon, alock, todo, uid, ufs, rl, ours, rsig, child, ticks, opsLeft, acked, told, pre, relreq, cnreq, emptyRec, liveFail, crashes, bad>>
 
 \* ---------------------------------------------------------------- crash, restart, recovery scan
 ReleaseLocksOf(S) == [i \in Ids |-> IF flock[i] \in S THEN None ELSE flock[i]]
@@ -461,7 +463,7 @@ CrashDaemon ==
   /\ ufs' = [a \in Actors |-> IF IsDaemon(a) THEN "none" ELSE ufs[a]]
   /\ ours' = [i \in Ids |-> FALSE]
   /\ pre' = told
-  /\ UNCHANGED <<disk, rl, rsig, child, ticks, opsLeft, acked, told, relreq, cnreq, released, gen, emptyRec, bad>>
+  /\ UNCHANGED <<disk, rl, rsig, child, ticks, opsLeft, acked, told, relreq, cnreq, released, gen, emptyRec, liveFail, bad>>
 
 CrashRunner(i) ==    \* SIGKILL of the supervisor: the payload keeps running, nobody records its end
   /\ RunnerAlive(i) /\ crashes < MaxCrashes
@@ -470,7 +472,7 @@ CrashRunner(i) ==    \* SIGKILL of the supervisor: the payload keeps running, no
   /\ ufs' = [ufs EXCEPT ![RT(i)] = "none"]
   /\ Goto(RT(i), "zombie")
   /\ UNCHANGED <<disk, up, active, mem, mon, alock, todo, uid, rl, ours, rsig, child, ticks,
-                 opsLeft, acked, told, pre, relreq, cnreq, released, gen, emptyRec, bad>>
+                 opsLeft, acked, told, pre, relreq, cnreq, released, gen, emptyRec, liveFail, bad>>
 
 Restart ==           \* RegisterWorker -> scanForUnits: one scanForUnit per directory
   /\ ~up
@@ -502,7 +504,7 @@ ScanPeek(a) ==
               /\ UNCHANGED emptyRec
               /\ Goto(a, "sc_restart")
   /\ UNCHANGED <<disk, flock, up, active, mon, alock, todo, uid, ufs, rl, ours, rsig, child, ticks,
-                 opsLeft, acked, told, pre, relreq, cnreq, released, gen, crashes, bad>>
+                 opsLeft, acked, told, pre, relreq, cnreq, released, gen, liveFail, crashes, bad>>
 
 \* commandUnit.Restart: complete -> nothing; pending -> "Pending at restart" Failed; else monitor.  unknownUnit: nothing.
 ScanRestart(a) ==
@@ -512,13 +514,17 @@ ScanRestart(a) ==
          THEN Goto(a, "sc_reg") /\ UNCHANGED mon
          ELSE /\ mon' = [mon EXCEPT ![i] = TRUE]
               /\ Goto(a, IF mem[i].st = "P" THEN "sc_u_pendfail" ELSE "sc_reg")
-  /\ UNCHANGED <<disk, flock, up, active, mem, alock, todo, uid, ufs, rl, ours, rsig, child, ticks, book, bad>>
+  /\ liveFail' = [liveFail EXCEPT ![uid[a]] = @ \/ (mem[uid[a]].ty = "cmd" /\ mem[uid[a]].st = "P" /\ RunnerAlive(uid[a]))]
+  /\ UNCHANGED <<disk, flock, up, active, mem, alock, todo, uid, ufs, rl, ours, rsig, child, ticks,
+                 opsLeft, acked, told, pre, relreq, cnreq, released, gen, emptyRec, crashes, bad>>
 
 ScanRegister(a) ==
   /\ up /\ loc[a] = "sc_reg" /\ (alock = None \/ alock = a)
   /\ active' = active \cup {uid[a]}
+  \* MonitorLocalStatus leaves its loop as soon as the in-memory state is complete (e.g. just marked Failed)
+  /\ mon' = [mon EXCEPT ![uid[a]] = @ /\ ~Complete(mem[uid[a]].st)]
   /\ Goto(a, "done")
-  /\ UNCHANGED <<disk, flock, up, mem, mon, alock, todo, uid, ufs, rl, ours, rsig, child, ticks, book, bad>>
+  /\ UNCHANGED <<disk, flock, up, mem, alock, todo, uid, ufs, rl, ours, rsig, child, ticks, book, bad>>
 
 \* ----------------------------------------------------------------
 Next ==
@@ -562,7 +568,7 @@ CancelStops == \A c \in Sess : (loc[c] \in {"cn_u_cancel", "rl_u_cancel"} /\ our
 \* C04 -------------------------------------------------------------
 Settled == up /\ todo = {} /\ \A a \in DaemonActors : loc[a] = "idle"
 
-Excused(i) == KF_EmptyStatus /\ emptyRec[i]
+Excused(i) == (KF_EmptyStatus /\ emptyRec[i]) \/ (KF_LiveRunnerFailed /\ liveFail[i])
 
 Durable ==
   Settled =>
